@@ -356,7 +356,7 @@ Theorem agreeing_case_satisfies_spec c :
   xspec_run (od_of c) (c_idue c) (c_k c) [] (c_obs0 c) (c_hist c) = true.
 Proof.
   unfold model_agrees, first_diff. intros ID H Ev. apply andb_true_iff in H as [H H2].
-  apply andb_true_iff in H as [Wb _].
+  apply andb_true_iff in H as [H _]. apply andb_true_iff in H as [Wb _].
   destruct (xobs_eqb (xobserve (c_k c) (xinit_of c)) (c_obs0 c)) eqn:E0; [|discriminate].
   apply xobs_eqb_eq in E0.
   destruct (replay (od_of c) (c_idue c) (c_k c) (xinit_of c) 1 (c_hist c)) eqn:R; [discriminate|].
